@@ -114,6 +114,9 @@ func (w *world) gen(r *sim.Rand) *sim.Step {
 			for _, i := range r.Perm(w.n) {
 				w.plan = append(w.plan, sim.Step{Op: "duty", A: []int64{int64(i), int64(role), slot}})
 			}
+			if w.prop == "C03" && cfg.Get("byz_mask", 0) != 0 && r.Chance(0.4) { // a faulty round-1 leader equivocates right away
+				w.plan = append(w.plan, sim.Step{Op: "equiv", A: []int64{int64(r.Intn(w.n)), int64(role)}})
+			}
 			return w.gen(r)
 		}
 		return &sim.Step{Op: "duty", A: []int64{int64(r.Intn(w.n)), int64(role), slot}}
@@ -163,6 +166,9 @@ func (w *world) genFault(r *sim.Rand, ar []int) *sim.Step {
 	}
 	if w.prop == "C03" && r.Chance(0.12) {
 		return &sim.Step{Op: "straggler", A: []int64{int64(r.Intn(w.n)), int64(ar[r.Intn(len(ar))])}}
+	}
+	if w.prop == "C03" && w.d.Cfg.Get("byz_mask", 0) != 0 && r.Chance(0.2) {
+		return &sim.Step{Op: "equiv", A: []int64{int64(r.Intn(w.n)), int64(ar[r.Intn(len(ar))])}}
 	}
 	switch r.Weighted(wc, 6, wr, wdec) {
 	case 0:
